@@ -827,6 +827,10 @@ class World:
             if not group_cancelled or parent_visible:
                 self.bad("c02:enclosing-cancellation-swallowed", "", f"group {gi.name}")
 
+    def no_natives_so_far(self):
+        return not self.native_targets and not self.tainted and not self.stats["native_timeout"] \
+            and not self.stats["native_taskgroup"]
+
     # ---- TaskGroup.start (C07)
     async def run_start(self, st, ms):
         _, gname, cname, spec = st
@@ -857,6 +861,9 @@ class World:
                 site["delivered_to_caller"] = e
             else:
                 self.bad("c07:start-wrong-exception", "RuntimeError", f"child {cname} ended {ci.ended}, start() raised {e!r}")
+                if ci.ended[0] == "cancelled" and is_anyio_cancel(ci.ended[1]):
+                    self.bad("c02:cancellation-reported-as-error", "start", f"child {cname} of group {gi.name} was "
+                             f"cancelled by a scope before started(); start() turned that into {e!r}")
             raise
         except BaseException as e:
             site["outcome"] = ("raised", e)
@@ -865,6 +872,10 @@ class World:
                          f"start() of {cname} raised {e!r} at cycle {self.cycle()} while the child is still running")
             if isinstance(e, asyncio.CancelledError):
                 self.stats["start_caller_cancelled"] += 1
+                if not is_anyio_cancel(e) and self.no_natives_so_far():
+                    # nobody has called Task.cancel() in this program: every cancellation error belongs to a scope
+                    self.bad("c07:start-wrong-exception", "unowned-CancelledError",
+                             f"child {cname} ended {ci.ended}, start() raised {e!r}, which no cancel scope owns")
                 if ci.ended is not None and ci.ended[0] == "raise":
                     self.stats["start_child_raised_after_caller_cancelled"] += 1
             else:
@@ -1037,6 +1048,9 @@ def run_program(case):
                     w.bad("c04:cancellation-escaped-root", "", "an AnyIO cancellation reached the top although no "
                                                                "enclosing scope was cancelled")
                 else:
+                    if w.no_natives_so_far():
+                        w.bad("c04:cancellation-escaped-root", "unowned", "a cancellation error that no cancel scope "
+                              "owns reached the top although nothing called Task.cancel()")
                     raise
         w.finished = True
         for rec in w.pending_c02:
